@@ -115,8 +115,8 @@ CHECKS["C18"] = dict(
 
 CHECKS["C06"] = dict(
     src="harness/C06_metric.cpp",
-    cases=dict(quick=300000, thorough=5000000),
-    fuzz=dict(runs=3000000, maxlen=600),
+    cases=dict(quick=1000000, thorough=12000000),
+    fuzz=dict(runs=4000000, maxlen=600),
     rule="(filled below)",
     technique="property-based testing of metric laws over generated spaces and adversarial state triples; libFuzzer in thorough",
     level_text="Generated spaces (every shipped kind, wrappers, nested weighted compounds to depth 3) and jointly generated adversarial "
